@@ -19,12 +19,12 @@ func guardWedge(em *Emitter, idx int, kind string, desc any, tags []string) (ste
 	var progress, done atomic.Int64
 	lockWait := regexp.MustCompile(`\[(sync\.(RW)?Mutex\.[A-Za-z]+|semacquire)[^\]]*synctest bubble`)
 	go func() {
-		last, stuck := int64(-1), 0
+		last, stuck, confirm := int64(-1), 0, 0
 		for done.Load() == 0 {
 			time.Sleep(250 * time.Millisecond)
 			p := progress.Load()
 			if p != last {
-				last, stuck = p, 0
+				last, stuck, confirm = p, 0, 0
 				continue
 			}
 			stuck++
@@ -33,12 +33,18 @@ func guardWedge(em *Emitter, idx int, kind string, desc any, tags []string) (ste
 			}
 			buf := make([]byte, 8<<20)
 			dump := string(buf[:runtime.Stack(buf, true)])
-			busy := strings.Count(dump, "[running") + strings.Count(dump, "[runnable") - 1
+			// a goroutine inside a system call (a record or log line written to a slow pipe) is busy too; the
+			// picture must be the same in 3 samples in a row: a real deadlock stays, a starved process moves on
+			busy := strings.Count(dump, "[running") + strings.Count(dump, "[runnable") - 1 +
+				strings.Count(dump, "[syscall") + strings.Count(dump, "[IO wait")
 			waiters := len(lockWait.FindAllString(dump, -1))
 			if waiters == 0 || busy > 0 {
+				confirm = 0
 				if stuck < 2400 { // 10 minutes without any progress: give up anyway
 					continue
 				}
+			} else if confirm++; confirm < 3 {
+				continue
 			}
 			if done.Load() != 0 {
 				return
